@@ -21,7 +21,7 @@ import (
 // and the files have to equal those of the same session without the refused statement.
 func init() {
 	core.Extend("C08", "family refused-query: 2 targets (file table, temporary table with string / integer / float / datetime cells) x 7 sources of the query (file table, through an alias, the target itself, the temporary table, a cross join, "+
-		"an inline table, a file table under a table function... ) x 7 shapes of the query (plain, DISTINCT, WHERE, ORDER BY, LIMIT, UNION ALL, GROUP BY) x 18 refused statement forms x 3 states of the transaction (nothing loaded, all tables read, all tables changed and uncommitted); "+
+		"an inline table, a file table under a table function) x 7 shapes of the query (plain, DISTINCT, WHERE, ORDER BY, LIMIT, UNION ALL, GROUP BY) x 18 refused statement forms x 3 states of the transaction (nothing loaded, all tables read, all tables changed and uncommitted); "+
 		"oracle: after further evaluation every table - also those the statement only read - as before the statement; a later change of every table and COMMIT give the tables and files of the session without the refused statement", c08RQRun)
 }
 
